@@ -1522,7 +1522,13 @@ impl Link {
             self.unit_status = UnitStatus::Gone;
             return Err(UnitStatus::Gone);
         }
-        let sub = match rx.await {
+        // If this future is dropped while it waits here, an answer the
+        // gate has already sent must not be lost with its slot.
+        let mut pending = PendingSubscription {
+            response: rx,
+            commands: self.commands.clone(),
+        };
+        let sub = match (&mut pending.response).await {
             Ok(sub) => sub,
             Err(_) => {
                 self.unit_status = UnitStatus::Gone;
@@ -1580,6 +1586,36 @@ impl Link {
     ) {
         self.direct_update_target =
             Some(Arc::downgrade(&direct_update_target));
+    }
+}
+
+/// The answer to a `Subscribe` command that [`Link::connect`] waits for.
+///
+/// The future returned by `connect` (and by `query`, which connects first)
+/// may be dropped at any time. If that happens before the gate answers, the
+/// gate notices that nobody takes the answer and removes the slot again. If
+/// it happens after the gate answered but before the answer was picked up,
+/// the slot is given back here; it would otherwise stay subscribed for good
+/// with nobody knowing its id.
+struct PendingSubscription {
+    response: oneshot::Receiver<SubscribeResponse>,
+    commands: mpsc::Sender<GateCommand>,
+}
+
+impl Drop for PendingSubscription {
+    fn drop(&mut self) {
+        self.response.close();
+        if let Ok(sub) = self.response.try_recv() {
+            let cmd = GateCommand::Unsubscribe { slot: sub.slot };
+            if let Err(mpsc::error::TrySendError::Full(cmd)) =
+                self.commands.try_send(cmd)
+            {
+                let tx = self.commands.clone();
+                crate::tokio::spawn("drop-subscription", async move {
+                    let _ = tx.send(cmd).await;
+                });
+            }
+        }
     }
 }
 
@@ -2197,6 +2233,47 @@ mod tests {
         eprintln!("CHECKING GATE HAS NO CLONE SENDER");
         assert!(matches!(&gate.state, GateState::Normal(NormalGateState { 
                 clone_senders, .. }) if clone_senders.is_empty()));
+    }
+
+    /// The future returned by `connect` can be dropped at any time. If that
+    /// happens after the gate answered but before the answer was picked up,
+    /// the subscription must not stay behind in the gate.
+    #[tokio::test]
+    async fn connect_dropped_after_the_answer_gives_the_slot_back() {
+        let (gate, mut agent) = Gate::new(10);
+        let mut link = agent.create_link();
+
+        {
+            let connect = link.connect(false);
+            pin_mut!(connect);
+
+            // The Subscribe command gets queued ...
+            assert!(futures::poll!(connect.as_mut()).is_pending());
+
+            // ... the gate handles it and answers ...
+            let _ = gate
+                .process_until(tokio::time::sleep(Duration::from_millis(50)))
+                .await;
+            assert_eq!(gate.updates.len(), 1);
+
+            // ... and the caller goes away without looking at the answer.
+        }
+        assert!(link.connected_gate_slot().is_none());
+
+        let _ = gate
+            .process_until(tokio::time::sleep(Duration::from_millis(50)))
+            .await;
+        assert_eq!(gate.updates.len(), 0, "nobody knows that slot");
+
+        // The link can still be connected for real.
+        let connect = link.connect(false);
+        pin_mut!(connect);
+        assert!(futures::poll!(connect.as_mut()).is_pending());
+        let _ = gate
+            .process_until(tokio::time::sleep(Duration::from_millis(50)))
+            .await;
+        connect.await.unwrap();
+        assert_eq!(gate.updates.len(), 1);
     }
 }
 
